@@ -371,6 +371,7 @@ type loopInfo struct {
 	limit     int64
 	limitOK   bool
 	limitPath string
+	limitVal  ssa.Value
 	header    *ssa.BasicBlock
 }
 
@@ -408,6 +409,7 @@ func loopBounds(fn *ssa.Function) []loopInfo {
 					li.op = bo.Op
 					li.limit, li.limitOK = core.ConstInt(bo.Y)
 					li.limitPath = p.Path(bo.Y)
+					li.limitVal = bo.Y
 				}
 			}
 			out = append(out, li)
